@@ -137,7 +137,17 @@ def build_daily(case):
     if case["entry"] == "from_series":
         data = quiet(cls.from_series, meter, temp, is_electricity_data=case["electric"])
     else:
-        data = quiet(cls, temp.to_frame().join(meter, how="left"), is_electricity_data=case["electric"])
+        frame = temp.to_frame().join(meter, how="left")
+        if case.get("dup_first_nan"):
+            # duplicated timestamps: on these days a provisional record (no usage yet) precedes the final one. The classes keep the
+            # FIRST record of a timestamp (CalTRACK 2.3.2.2), so these days count as days without usage
+            stamps = [days[i] for i in case["dup_first_nan"]]
+            prov = frame.loc[stamps].copy()
+            prov["observed"] = np.nan
+            frame = pd.concat([prov, frame]).sort_index(kind="stable")
+            meter = meter.copy()
+            meter.loc[stamps] = np.nan
+        data = quiet(cls, frame, is_electricity_data=case["electric"])
     return data, days, hours, meter, temp
 
 
@@ -420,6 +430,11 @@ def run(ctx):
                 one_case(dict(kind="daily", tz=tzname, start=pd.Timestamp("2020-12-01", tz=tzname).isoformat(), n=335, baseline=True,
                               electric=True, style="month_line_spring_span", miss_obs=miss_obs, miss_temp_days=[71, 72, 73], partial={},
                               negatives=[], extreme=False, entry=entry), res, sigs, lines, metas)
+    # directed, every run: duplicated timestamps whose first record has no usage, on enough days to cross the 90 % line
+    for tzname in ("America/Chicago", "Asia/Tokyo"):
+        one_case(dict(kind="daily", tz=tzname, start=pd.Timestamp("2021-01-01", tz=tzname).isoformat(), n=340, baseline=True, electric=True,
+                      style="provisional_records_first", miss_obs=[], miss_temp_days=[], partial={}, negatives=[], extreme=False, entry="frame",
+                      dup_first_nan=list(range(20, 300, 7))), res, sigs, lines, metas)
     # directed, every run: a billing calendar with one off-cycle period (12 days) and one with a 40-day period
     for off in (12, 40):
         one_case(dict(kind="billing", style="perfect", tz="America/Chicago", start=pd.Timestamp("2021-01-05", tz="America/Chicago").isoformat(),
